@@ -490,7 +490,8 @@ def draw_network(
     # this assumes that nodes are identified by an integer
     # which is true for default nx graphs but might user changeable
     pos = np.asarray(list(pos.values()))
-    arguments["loc"] = pos[arguments["loc"]]
+    if arguments["loc"].size > 0:
+        arguments["loc"] = pos[arguments["loc"]]
 
     # plot the agents
     _scatter(ax, arguments, **kwargs)
@@ -628,6 +629,10 @@ def _scatter(ax: Axes, arguments, **kwargs):
 
     """
     loc = arguments.pop("loc")
+
+    if loc.size == 0:
+        # no agents in the space, so there is nothing to plot
+        return
 
     x = loc[:, 0]
     y = loc[:, 1]
